@@ -524,6 +524,35 @@ def icmp(pred, a, b):
         sx, sy = sval(a), sval(b)
         r = {'eq': x == y, 'ne': x != y, 'ult': x < y, 'ule': x <= y, 'slt': sx < sy, 'sle': sx <= sy}[pred]
         return TRUE if r else FALSE
+    # a selection between constants compared with a constant: compare in each arm
+    for x_, y_, left in ((a, b, True), (b, a, False)):
+        if x_.op == 'select' and y_.op == 'const' and x_.args[1].op == 'const' and x_.args[2].op == 'const':
+            r1 = icmp(pred, x_.args[1], y_) if left else icmp(pred, y_, x_.args[1])
+            r2 = icmp(pred, x_.args[2], y_) if left else icmp(pred, y_, x_.args[2])
+            return select(x_.args[0], r1, r2)
+    # unsigned order against a constant decided by the known bits of a concatenation (value range with the unknown bits all 0 / all 1)
+    if pred in ('ult', 'ule'):
+        for x_, y_, left in ((a, b, True), (b, a, False)):
+            if x_.op == 'concat' and y_.op == 'const' and any(p_.op == 'const' for p_ in x_.args):
+                lo = hi = pos = 0
+                for p_ in x_.args:
+                    if p_.op == 'const':
+                        lo |= p_.args[0] << pos
+                        hi |= p_.args[0] << pos
+                    else:
+                        hi |= ((1 << p_.w) - 1) << pos
+                    pos += p_.w
+                cv = y_.args[0]
+                if left:      # x PRED c
+                    if (hi < cv) if pred == 'ult' else (hi <= cv):
+                        return TRUE
+                    if (lo >= cv) if pred == 'ult' else (lo > cv):
+                        return FALSE
+                else:         # c PRED x
+                    if (cv < lo) if pred == 'ult' else (cv <= lo):
+                        return TRUE
+                    if (cv >= hi) if pred == 'ult' else (cv > hi):
+                        return FALSE
     # sign tests are the most significant bit:  x <s 0  ==  msb(x) ;  -1 <s x  ==  !msb(x) ;  x <=s -1 == msb ; 0 <=s x == !msb
     if pred in ('slt', 'sle') and a.w > 1:
         w_ = a.w
@@ -757,6 +786,14 @@ def arith(op, *args, w=None):
             return args[1]
         if args[1].op == 'const' and args[1].args[0] == 0:
             return args[0]
+        # constant with k low zero bits + x: the low k bits of x pass through, the addition happens above them
+        for i in (0, 1):
+            c, x = args[i], args[1 - i]
+            if c.op == 'const' and c.args[0] and x.op == 'concat':
+                k = (c.args[0] & -c.args[0]).bit_length() - 1
+                if 0 < k < w and not (x.args[0].op == 'const' and x.args[0].w >= k):
+                    # only when the split falls on a part boundary or inside symbolic parts: always valid
+                    return concat([slice_(x, 0, k), arith('add', slice_(x, k, w - k), const(w - k, c.args[0] >> k))])
         # constant + {known low bits, unknown high part}: the low part and its carry are computed, the addition continues in the high part only
         for i in (0, 1):
             c, x = args[i], args[1 - i]
@@ -945,6 +982,9 @@ def make(op, args, w):
             top = a.args[-1]
             return const(w, ((1 << w) - 1) if (top.args[0] >> (top.w - 1)) & 1 else 0)
         return mk(op, args, w)
+    if op in ('shl', 'lshr', 'ashr') and len(args) == 2 and isinstance(args[1], T) and args[1].op == 'const' and args[0].op != 'const' and args[1].args[0] < w:
+        k_ = args[1].args[0]
+        return shl(args[0], k_) if op == 'shl' else lshr(args[0], k_) if op == 'lshr' else ashr(args[0], k_)
     if op in ('shl', 'lshr', 'ashr') and len(args) == 2 and all(isinstance(a, T) and a.op == 'const' for a in args):
         v, k = args[0].args[0], args[1].args[0]
         if k < w:
